@@ -34,6 +34,26 @@ func (in *Interp) newBlob(v Value) []*Term {
 	id := len(in.opaque) + 1
 	b := &opaqueBlob{id: id}
 	if iv, ok := v.(Iface); ok {
+		// a pointer to an interface value (Put(w, key, &tx) with tx a core.Transaction) encodes the dynamic
+		// value the interface holds, as the real codec does
+		for iv.t != nil {
+			pt, isPtr := iv.t.(*types.Pointer)
+			if !isPtr {
+				break
+			}
+			if _, isIface := pt.Elem().Underlying().(*types.Interface); !isIface {
+				break
+			}
+			pp, ok := iv.v.(Ptr)
+			if !ok || pp.obj == nil {
+				in.unsupported("encode of a nil pointer to an interface")
+			}
+			inner, ok := in.load(pp).(Iface)
+			if !ok || inner.t == nil {
+				in.unsupported("encode of a pointer to a nil interface")
+			}
+			iv = inner
+		}
 		b.typ = iv.t
 		b.val = in.deepCopy(iv.v, map[*Object]*Object{}, map[*MapObj]*MapObj{})
 	} else {
@@ -626,6 +646,37 @@ func (in *Interp) projectStruct(srcT types.Type, val Value, dstT types.Type) (Va
 	return out, true
 }
 
+// rawMessageBytes: cbor.RawMessage (or a pointer to one) is an already encoded item - it is written verbatim.
+func (in *Interp) rawMessageBytes(v Value) ([]*Term, bool) {
+	ifc, ok := v.(Iface)
+	if !ok || ifc.t == nil {
+		return nil, false
+	}
+	t := ifc.t
+	val := ifc.v
+	if p, ok := t.(*types.Pointer); ok {
+		t = p.Elem()
+		if n, ok := t.(*types.Named); ok && n.Obj().Name() == "RawMessage" && n.Obj().Pkg() != nil && n.Obj().Pkg().Path() == cborPkg {
+			pp, ok := val.(Ptr)
+			if !ok || pp.obj == nil {
+				return nil, false
+			}
+			val = in.load(pp)
+		} else {
+			return nil, false
+		}
+	}
+	n, ok := t.(*types.Named)
+	if !ok || n.Obj().Name() != "RawMessage" || n.Obj().Pkg() == nil || n.Obj().Pkg().Path() != cborPkg {
+		return nil, false
+	}
+	sl, ok := val.(Slice)
+	if !ok {
+		return nil, false
+	}
+	return in.sliceBytes(sl), true
+}
+
 func init() {
 	reg(vxPkg+"BlobLens", func(in *Interp, c *Frame, fn *ssa.Function, a []Value) Value {
 		in.extra["bloblens"] = [2]int{in.concreteInt(a[0], "min"), in.concreteInt(a[1], "max")}
@@ -634,6 +685,9 @@ func init() {
 	reg(encPkg+"Marshal", func(in *Interp, c *Frame, fn *ssa.Function, a []Value) Value {
 		if bs, ok := in.cborUint(a[0]); ok {
 			return Tuple{in.bytesToSlice(bs), Iface{}}
+		}
+		if bs, ok := in.rawMessageBytes(a[0]); ok {
+			return Tuple{in.bytesToSlice(append([]*Term{}, bs...)), Iface{}}
 		}
 		return Tuple{in.bytesToSlice(in.newBlob(a[0])), Iface{}}
 	})
@@ -670,7 +724,10 @@ func init() {
 	reg("(*"+cborPkg+".Encoder).Encode", func(in *Interp, c *Frame, fn *ssa.Function, a []Value) Value {
 		enc := in.load(a[0].(Ptr)).(*Agg)
 		w := enc.e[0].(Iface)
-		bs := in.newBlob(a[1])
+		bs, raw := in.rawMessageBytes(a[1])
+		if !raw {
+			bs = in.newBlob(a[1])
+		}
 		wm := in.methodOf(w.t, "Write")
 		if wm == nil {
 			in.unsupported("encoder writer has no Write")
